@@ -64,6 +64,9 @@ class Driver:
             return s.get(*args)
         if op == "get_many":
             return s.get_many(*args)
+        if op == "get_many_gen":
+            # the names handed over as a one-shot iterator (the signature says Iterable[str])
+            return s.get_many(x for x in args[0])
         if op in ("getnext", "getbulk", "fetch"):
             it = getattr(s, op)(*args)
             out = self.partial = []   # what was yielded so far stays observable if the walk raises
@@ -159,6 +162,8 @@ class Driver:
             return await s.get(*args)
         if op == "get_many":
             return await s.get_many(*args)
+        if op == "get_many_gen":
+            return await s.get_many(x for x in args[0])
         if op in ("getnext", "getbulk", "fetch"):
             out = self.partial = []
             async for x in getattr(s, op)(*args):
